@@ -382,3 +382,100 @@ func M_regexp_Regexp_FindStringIndex(re *string, s string) []int {
 	}
 	return m[0]
 }
+
+// (*Regexp).ReplaceAllStringFunc for the two braced patterns (they never match the empty string)
+func M_regexp_Regexp_ReplaceAllStringFunc(re *string, src string, repl func(string) string) string {
+	out := ""
+	pos := 0
+	for _, m := range findAllBraced(leadOf(re), src, -1) {
+		out += src[pos:m[0]] + repl(src[m[0]:m[1]])
+		pos = m[1]
+	}
+	return out + src[pos:]
+}
+
+func isWordByte(b byte) bool {
+	return b == '_' || (b >= '0' && b <= '9') || (b >= 'a' && b <= 'z') || (b >= 'A' && b <= 'Z')
+}
+
+// ExpandTemplate: regexp's template expansion for a pattern WITHOUT capture groups: $0 / ${0} is the
+// whole match, every other well-formed reference ($name, ${name}, $1 ...) expands to nothing, $$ is a
+// dollar sign, a malformed reference keeps its dollar sign.  Names are ASCII here (a non-ASCII byte
+// where a name could start or continue is not modelled: unicode letters are name characters too).
+func ExpandTemplate(template, match string) string {
+	out := ""
+	for len(template) > 0 {
+		i := M_strings_IndexByte(template, '$')
+		if i < 0 {
+			break
+		}
+		out += template[:i]
+		template = template[i+1:]
+		if template != "" && template[0] == '$' {
+			out += "$"
+			template = template[1:]
+			continue
+		}
+		// extract
+		str := template
+		ok := false
+		name := ""
+		rest := ""
+		if str != "" {
+			brace := false
+			if str[0] == '{' {
+				brace = true
+				str = str[1:]
+			}
+			j := 0
+			for j < len(str) {
+				if str[j] >= 0x80 {
+					Unmodelled("regexp template: non-ASCII byte in a reference name")
+				}
+				if !isWordByte(str[j]) {
+					break
+				}
+				j++
+			}
+			if j > 0 {
+				name = str[:j]
+				ok = true
+				if brace {
+					if j >= len(str) || str[j] != '}' {
+						ok = false
+					} else {
+						j++
+					}
+				}
+				if ok {
+					rest = str[j:]
+				}
+			}
+		}
+		if !ok {
+			out += "$"
+			continue
+		}
+		template = rest
+		if name == "0" {
+			out += match
+		}
+	}
+	return out + template
+}
+
+// (*Regexp).ReplaceAllString for the two braced patterns (no capture groups)
+func M_regexp_Regexp_ReplaceAllString(re *string, src, repl string) string {
+	out := ""
+	pos := 0
+	for _, m := range findAllBraced(leadOf(re), src, -1) {
+		out += src[pos:m[0]]
+		if M_strings_IndexByte(repl, '$') >= 0 {
+			out += ExpandTemplate(repl, src[m[0]:m[1]])
+		} else {
+			out += repl
+		}
+		pos = m[1]
+	}
+	return out + src[pos:]
+}
